@@ -220,6 +220,21 @@ struct RtModel : mcx::Model {
                 if(c % 4 == 1) I->in.generate_ms(25);
             }
         }
+        if(sn.find("sharedheld") != std::string::npos) {
+            // every chip channel busy; one of them shared by a key-down note and a later note of the same timbre that was released under the pedal (list order: key-down, held),
+            // another one carrying a single released, pedal-held note that was struck later
+            size_t nch = I->in.play()->m_chipChannels.size();
+            for(size_t c = 0; c + 1 < nch; c++) opn2_rt_noteOn(d, 2, (OPN2_UInt8)(30 + c), 90);
+            opn2_rt_noteOn(d, 1, 40, 90);                                   // the last free channel
+            opn2_rt_noteOn(d, 2, 50, 90);                                   // same timbre, same instant: shares a channel
+            opn2_rt_controllerChange(d, 2, 64, 127); opn2_rt_noteOff(d, 2, 50);
+            opn2_rt_noteOff(d, 1, 40); I->in.generate_ms(25);
+            opn2_rt_controllerChange(d, 1, 64, 127); opn2_rt_noteOn(d, 1, 41, 90); opn2_rt_noteOff(d, 1, 41);
+            I->in.generate_ms(100);
+            bool shared = false, single = false; OPNMIDIplay &pp = *I->in.play();
+            for(size_t c = 0; c < nch; c++) { size_t n = 0, held = 0; for(OCh::users_iterator j = pp.m_chipChannels[c].users.begin(); !j.is_end(); ++j) { n++; if(j->value.sustained) held++; } if(n == 2 && held == 1) shared = true; if(n == 1 && held == 1) single = true; }
+            if(!shared || !single) { fprintf(stderr, "start state 'sharedheld' was not formed (shared channel %d, single held channel %d)\n", (int)shared, (int)single); abort(); }
+        }
         if(sn.find("busy6same") != std::string::npos) {
             // six key-down notes of one timbre on MIDI channel 0: one chip is full, a 7th note of another timbre must evict or (with arpeggio) evacuate
             if(sn.find("pedal") != std::string::npos) opn2_rt_controllerChange(d, 0, 64, 127);
